@@ -447,6 +447,17 @@ func ruleDEEPEQ(w *World, r *Report, pkgs ...string) {
 			key := fmt.Sprintf("%s:DeepEqual#%d", shortName(fn), k)
 			k++
 			a, b := stripConv(c.Common().Args[0]), stripConv(c.Common().Args[1])
+			// the exponent-indexed parity table has nil gaps by construction: it may be compared element-wise only
+			sparse := ""
+			for _, x := range []ssa.Value{a, b} {
+				if strings.HasSuffix(deepPath(x).Path, ".parityShards") {
+					sparse = deepPath(x).String()
+				}
+			}
+			if sparse != "" {
+				r.bad("DEEPEQ", key, w.ipos(c), "the exponent-indexed parity table "+sparse+" is compared as a whole: it holds nil at every exponent for which no block was found, so with non-contiguous exponents the comparison fails although every present block agrees")
+				continue
+			}
 			ta, tb := a.Type(), b.Type()
 			_, ia := ta.Underlying().(*types.Interface)
 			_, ib := tb.Underlying().(*types.Interface)
@@ -560,4 +571,120 @@ func ruleTABLEFILL(w *World, r *Report, floor int, tables ...string) {
 		}
 	}
 	r.floor("TABLEFILL", "index-filled tables in gf2p16 initialisers", n, floor)
+}
+
+// ---------------------------------------------------------------------------
+// IMMUT: what was read from the index is not rewritten afterwards.
+
+const ruleIMMUTText = "the archive metadata a decoder loaded from the index (par1: indexVolume; par2: recoverySet, nonRecoverySet, setID, sliceByteCount) is never written after construction: no store through those fields and no append onto (a reslice of) them outside newDecoder - an in-place filter or append that reuses the backing array rewrites the entry list the next operation on the same decoder reads"
+
+func ruleIMMUT(w *World, r *Report, pkgs ...string) {
+	r.rule("IMMUT", ruleIMMUTText)
+	meta := map[string][]string{
+		"par1": {".indexVolume"},
+		"par2": {".recoverySet", ".nonRecoverySet", ".setID", ".sliceByteCount", ".indexPath"},
+	}
+	n := 0
+	for _, pkg := range pkgs {
+		for _, fn := range w.funcsInPkgs(pkg) {
+			top := fn
+			for top.Parent() != nil {
+				top = top.Parent()
+			}
+			if strings.HasSuffix(shortName(top), ".newDecoder") || !strings.Contains(shortName(top), "Decoder") {
+				continue
+			}
+			n++
+			bad := ""
+			isMeta := func(path string) bool {
+				for _, m := range meta[pkg] {
+					if strings.HasPrefix(path, m) {
+						return true
+					}
+				}
+				return false
+			}
+			for _, b := range fn.Blocks {
+				for _, in := range b.Instrs {
+					switch x := in.(type) {
+					case *ssa.Store:
+						p := deepPath2(x.Addr)
+						if p.Root != nil && isDecoderRecv(top, p.Root) && isMeta(p.Path) {
+							bad = "a store through d" + p.Path + " at " + w.ipos(x)
+						}
+					case *ssa.Call:
+						if bc := isBuiltinCall(x, "append"); bc != nil {
+							// every value the appended-to slice variable can start from
+							seen := map[ssa.Value]bool{}
+							var leaves []ssa.Value
+							var walk func(v ssa.Value)
+							walk = func(v ssa.Value) {
+								if seen[v] {
+									return
+								}
+								seen[v] = true
+								switch y := v.(type) {
+								case *ssa.Phi:
+									for _, e := range y.Edges {
+										walk(e)
+									}
+								case *ssa.Call:
+									if c2 := isBuiltinCall(y, "append"); c2 != nil {
+										walk(c2.Call.Args[0])
+										return
+									}
+									leaves = append(leaves, v)
+								case *ssa.Slice:
+									walk(y.X)
+								default:
+									leaves = append(leaves, v)
+								}
+							}
+							walk(bc.Call.Args[0])
+							for _, base := range leaves {
+								p := deepPath(base)
+								if p.Root != nil && isDecoderRecv(top, p.Root) && isMeta(p.Path) {
+									bad = "append onto (a reslice of) d" + p.Path + " at " + w.ipos(x) + ", which reuses its backing array"
+								}
+							}
+						}
+					}
+				}
+			}
+			key := shortName(fn)
+			if bad == "" {
+				r.ok("IMMUT", key, w.pos(fn.Pos()), "does not write the metadata loaded from the index")
+			} else {
+				r.bad("IMMUT", key, w.pos(fn.Pos()), "decoder metadata is modified after construction: "+bad)
+			}
+		}
+	}
+	r.floor("IMMUT", "decoder methods examined", n, 8)
+}
+
+func isDecoderRecv(fn *ssa.Function, v ssa.Value) bool {
+	if len(fn.Params) > 0 && fn.Signature.Recv() != nil && fn.Params[0] == v {
+		return true
+	}
+	// closures capture the receiver through a cell
+	if fv, ok := v.(*ssa.FreeVar); ok {
+		return fv.Name() == "d"
+	}
+	return false
+}
+
+// deepPath2: access path of an address (through loads of pointer cells holding the receiver).
+func deepPath2(addr ssa.Value) accessPath {
+	p := addrPath(addr)
+	// root may be a load of a cell holding d (closures): *t0 where t0 = new *Decoder
+	for depth := 0; depth < 4; depth++ {
+		ld, ok := p.Root.(*ssa.UnOp)
+		if !ok || ld.Op != token.MUL {
+			break
+		}
+		q := deepPath(ld)
+		q.Path += p.Path
+		p = q
+	}
+	return p
 }
